@@ -108,7 +108,19 @@ def gen(kind='ror'):
     for f in FILES:
         text = open('/repo/' + f).read()
         lines = text.split('\n')
-        ss = [(li, col, op, REPL[op]) for li, col, op in sites(text)] if kind == 'ror' else sites_aor(text)
+        if kind == 'ror':
+            ss = [(li, col, op, REPL[op]) for li, col, op in sites(text)]
+        elif kind == 'lcr':
+            ss = []
+            cut = text.find('#[cfg(test)]')
+            for li, line in enumerate((text if cut < 0 else text[:cut]).split('\n')):
+                code = line.split('//')[0]
+                if line.strip().startswith('//'):
+                    continue
+                for m in re.finditer(r'\s(&&|\|\|)\s', code):
+                    ss.append((li, m.start(1), m.group(1), ['||' if m.group(1) == '&&' else '&&']))
+        else:
+            ss = sites_aor(text)
         for li, col, op, reps in ss:
             for k, rep in enumerate(reps):
                 new = list(lines)
